@@ -99,7 +99,7 @@ func (*BaseNode).SetPreviousSibling
   modifies n.prev
 
 // ---- attributes and flags read by the renderers ----
-ghost strIsCode(flags int) bool     // the "render as is" bit of a String node's flags
+fun strIsCode(flags int) bool = ((flags / textCode) % 2) != 0     // the "render as is" bit of a String node's flags
 func (*String).IsCode
   ensures result <==> strIsCode(n.flags)
   modifies nothing
